@@ -340,6 +340,22 @@ def run(ctx):
             init = init + '\n\ntrailing words after an empty line'
         hist_obs.append((route, init, ops2 + [['observe', rng.choice(OBS)], ['todict']]))
     fails += ctx.prop('prop:history-with-observations', hist_obs, p_history)
+    # names on which str.lower() and str.casefold() (or upper-then-lower) disagree: the mapping folds with lower() everywhere
+    UK = ['X-Stra\u00dfe', 'X-STRASSE', 'x-strasse', '\u0391\u03a3', '\u03b1\u03c2', '\u03b1\u03c3', '\u017fet', 'Set', 'set', '\ufb01x', 'FIX', 'fix',
+          '\u0130x', 'ix', 'i\u0307x', 'K', '\u212a', 'k']
+    hist_uni = []
+    for _ in range(ctx.n(1500, 15000)):
+        pool = rng.sample(UK, rng.randint(2, 6))
+        init = [[rng.choice(pool), rng.choice(VALS[:5])] for _ in range(rng.randint(0, 3))]
+        ops = []
+        for _ in range(rng.randint(1, 20)):
+            key = rng.choice(pool)
+            ops.append(rng.choice([['set', key, rng.choice(VALS[:5])], ['get', key], ['del', key], ['in', key], ['len'], ['iter'], ['todict'],
+                                   ['setdefault', key, 'd'], ['pop', key]]))
+        hist_uni.append((rng.choice(['pairs', 'mapping']), init if True else init, ops))
+    hist_uni = [(r, (list({k: v for k, v in i}.items()) if r == 'mapping' else i), o) for r, i, o in hist_uni]
+    hist_uni = [(r, [list(kv) for kv in i], o) for r, i, o in hist_uni]
+    fails += ctx.prop('prop:history-unicode-names', hist_uni, p_history)
     fails += ctx.prop('prop:independent-objects', [h for h in hist if h[0] in ('mapping', 'pairs')][:ctx.n(2500, 30000)] +
                       [('pairs', [['A', '1'], ['b', '2']], [list(o) for o in s_]) for n_ in range(1, 3) for s_ in itertools.product(atoms, repeat=n_)],
                       p_independent)
@@ -348,8 +364,15 @@ def run(ctx):
     ctx.exhaustive.append('every known control field name in four casings through normalize_control_field_name')
     fails += ctx.prop('prop:normalize', names, p_normalize)
     typed = []
+    DEPS = sorted(debcon.DEPS_FIELDS)
+    NEAR = [d + sfx for d in DEPS for sfx in ('-Package', '-Note', 's', '-')] + ['X-' + d for d in DEPS] + [d[:-1] for d in DEPS] + \
+        ['Build-Depends-Package', 'Build-Conflicts-Reason', 'Build-Essential', 'XB-Depends', 'Depends-On', 'Pre-Depend', 'Recommend']
+    NEAR = [n for n in NEAR if debcon.normalize_control_field_name(n) not in debcon.DEPS_FIELDS and n != 'Installed-Size']
+    NEAR = list({debcon.normalize_control_field_name(n): n for n in NEAR if debcon.normalize_control_field_name(n) not in CONTROL_NAMES}.values())
     for _ in range(ctx.n(2500, 30000)):
         items = []
+        for n in rng.sample(NEAR, rng.randint(0, 2)):
+            items.append([rng.choice(casings(n)), rng.choice(['free text, not a relationship', 'libfoo (>= 1.0), bar', 'a | b', '(', 'x (1.0)'])])
         for n in rng.sample(CONTROL_NAMES, rng.randint(1, 7)):
             n2 = rng.choice(casings(n))
             nn = debcon.normalize_control_field_name(n2)
